@@ -24,23 +24,28 @@ RULE = ("rounds of 2..16 client threads, each opening real TCP connections to on
         "counter never exceeds 1; each reply carries exactly the data of the APDUs of its own "
         "request; every client gets exactly one reply. distinct = distinct service orders "
         "(sequence of client ids as served) over rounds; non-trivial = rounds in which >= 2 "
-        "requests were pending at the same time")
+        "requests were pending at the same time. Slow-request rounds make one blockchainState "
+        "take 6.5 s (thorough: also 12, 32, 62, 125 s) while other clients queue, so that a "
+        "server that gives up on a long request and moves on is exposed")
 ASSUMPTIONS = [
     "schedules are those the OS produces under injected device delays; not enumerated",
     "a client whose connection times out is left open in the history (counted, not judged)",
 ]
 FLOORS = {"quick": {"evaluations": 120, "pending_overlap_pairs": 150, "apdus_attributed": 1200,
-                    "replies_matched": 120, "distinct": 4},
-          "thorough": {"evaluations": 8000, "pending_overlap_pairs": 8000,
-                       "apdus_attributed": 100000, "replies_matched": 8000, "distinct": 100}}
+                    "replies_matched": 120, "distinct": 4,
+                    "slow_request_rounds": 1},
+          "thorough": {"evaluations": 15000, "pending_overlap_pairs": 100000,
+                       "apdus_attributed": 200000, "replies_matched": 15000, "distinct": 300,
+                       "slow_request_rounds": 5}}
 
 
 def shards(tier, seed):
     if tier == "quick":
-        return [{"seed": seed * 100 + i, "rounds": 2, "max_clients": 8, "per_client": 3}
-                for i in range(8)]
-    return [{"seed": seed * 100 + i, "rounds": 14, "max_clients": 16, "per_client": 4}
-            for i in range(16)]
+        return [{"seed": seed * 100 + i, "rounds": 2, "max_clients": 8, "per_client": 3,
+                 "slow": [6.5] if i == 0 else []} for i in range(8)]
+    slow = {0: [6.5], 1: [12.0], 2: [32.0], 3: [62.0], 4: [125.0]}
+    return [{"seed": seed * 100 + i, "rounds": 60, "max_clients": 16, "per_client": 4,
+             "slow": slow.get(i, [])} for i in range(16)]
 
 
 class Recorder:
@@ -142,19 +147,24 @@ def expected_from_apdus(kind, apdus):
     return exp
 
 
-def run_round(acc, spec, rnd, rng):
+def run_round(acc, spec, rnd, rng, slow=None):
+    """slow: total seconds one blockchainState request is made to take (a request that
+    outlasts any per-request time-out a server might have) while other clients queue"""
     from ..stack import Stack
     from comm.server import TCPServer
     rec = Recorder()
     dev = fresh_device(rng)
-    nclients = rng.randint(2, spec["max_clients"])
-    per = spec["per_client"]
+    nclients = rng.randint(2, spec["max_clients"]) if not slow else 3
+    per = spec["per_client"] if not slow else 2
     case = {"seed": spec["seed"], "round": rnd}
     with Stack(dev) as s:
         delay_rng = random.Random(rng.getrandbits(32))
 
         def hook(bus, apdu):
-            time.sleep(delay_rng.random() * 0.002)
+            if slow and len(apdu) > 1 and apdu[1] == 0x20:
+                time.sleep(slow / 9.0)
+            else:
+                time.sleep(delay_rng.random() * 0.002)
         s.bus.exchange_hook = hook
         s.bus.tag_fn = lambda: getattr(rec.ctx, "rid", None)
         orig = s.protocol.handle_request
@@ -196,6 +206,10 @@ def run_round(acc, spec, rnd, rng):
         for c in range(nclients):
             crng = random.Random(rng.getrandbits(32))
             plan[c] = [(crng.choice(gens)) for _ in range(per)]
+            if slow:
+                byname = dict(gens)
+                plan[c] = [("state", byname["state"])] if c == 0 else \
+                    [("signhash", byname["signhash"]), ("pubkey", byname["pubkey"])]
         barrier = threading.Barrier(nclients)
 
         def client(c):
@@ -203,6 +217,8 @@ def run_round(acc, spec, rnd, rng):
                 barrier.wait(timeout=20)
             except threading.BrokenBarrierError:
                 pass
+            if slow and c > 0:
+                time.sleep(0.3 * c)
             for i, (kind, mk) in enumerate(plan[c]):
                 rid = "r%d.c%d.%d" % (rnd, c, i)
                 req = mk()
@@ -211,8 +227,8 @@ def run_round(acc, spec, rnd, rng):
                 rec.add("call", rid=rid, client=c)
                 data = None
                 try:
-                    cs = socket.create_connection(("127.0.0.1", port), timeout=60)
-                    cs.settimeout(60)
+                    cs = socket.create_connection(("127.0.0.1", port), timeout=60 + (slow or 0))
+                    cs.settimeout(60 + (slow or 0))
                     cs.sendall(line)
                     data = b""
                     while True:
@@ -233,7 +249,7 @@ def run_round(acc, spec, rnd, rng):
         for th in threads:
             th.start()
         for th in threads:
-            th.join(180)
+            th.join(180 + 3 * (slow or 0))
         if srv.server is not None:
             srv.server.shutdown()
         t.join(10)
@@ -339,6 +355,9 @@ def run_shard(spec, acc):
     rng = random.Random(spec["seed"])
     for rnd in range(spec["rounds"]):
         run_round(acc, spec, rnd, rng)
+    for k, total in enumerate(spec.get("slow", [])):
+        acc.count("slow_request_rounds")
+        run_round(acc, spec, 1000 + k, rng, slow=total)
 
 
 def replay(case, acc):
